@@ -38,6 +38,7 @@ type entry struct {
 	absLo   time.Time // alive is required strictly before absLo (idle permitting)
 	absHi   time.Time // gone is required strictly after absHi
 	origin  string    // how the lineage began: new | reset
+	regen   bool      // the session went through Regenerate since
 	lineage int
 }
 
@@ -270,6 +271,7 @@ type curT struct {
 	absLo     time.Time
 	absHi     time.Time
 	origin    string
+	regen     bool
 	lineage   int
 	idle      time.Duration
 	destroyed bool
@@ -334,7 +336,11 @@ func (j *judge) deadSig(id, why string, e *entry, hasData bool, via string) (v *
 		return &vio{"outlives|idle-timeout|" + via,
 			fmt.Sprintf("session %q still served %s after its idle deadline %s (now %s)", id, j.w.now.Sub(e.idleDL), stamp(e.idleDL), stamp(j.w.now))}, true
 	case "abs":
-		return &vio{"outlives|absolute-timeout|" + e.origin + "|" + via,
+		org := e.origin
+		if e.regen {
+			org += "+regenerate"
+		}
+		return &vio{"outlives|absolute-timeout|" + org + "|" + via,
 			fmt.Sprintf("session %q (created by %s) still served %s after its absolute deadline %s (now %s)", id, e.origin, j.w.now.Sub(e.absHi), stamp(e.absHi), stamp(j.w.now))}, true
 	}
 	if hasData {
@@ -356,7 +362,7 @@ func stamp(t time.Time) string {
 
 func (j *judge) loadFrom(id string, e *entry) {
 	j.cur = curT{held: true, id: id, data: copyMap(e.data), hasAbs: e.hasAbs, absLo: e.absLo, absHi: e.absHi,
-		origin: e.origin, lineage: e.lineage}
+		origin: e.origin, regen: e.regen, lineage: e.lineage}
 }
 
 func (j *judge) newCur(id, origin string) {
@@ -464,7 +470,7 @@ func (j *judge) persist() {
 		idle = w.cfg.Idle
 	}
 	ne := &entry{data: copyMap(c.data), hasAbs: c.hasAbs, absLo: c.absLo, absHi: c.absHi,
-		origin: c.origin, lineage: c.lineage}
+		origin: c.origin, regen: c.regen, lineage: c.lineage}
 	w.setIdle(ne, idle)
 	w.store[c.id] = ne
 	delete(w.dead, c.id)
@@ -573,12 +579,10 @@ func (j *judge) step(o op, r *opObs, idx int) {
 		if !j.changeID(r, "regenerate") {
 			return
 		}
-		if c.hasAbs {
-			// the statement does not say whether the absolute deadline restarts: accept both
-			if n := w.now.Add(w.cfg.Abs); n.After(c.absHi) {
-				c.absHi = n
-			}
-		}
+		// Regenerate keeps the session — its data and its absolute deadline (AbsoluteTimeout is the
+		// maximum duration of the session "regardless of activity") — only the id changes.
+		// Reset, below, starts a new session with a deadline of its own.
+		c.regen = true
 	case "reset":
 		if r.Err != "" {
 			j.fail(&vio{"api|reset-error|" + j.via, where + ": " + r.Err})
